@@ -66,12 +66,15 @@ enum ObsOp {
   kUnwrap,  // a continuation of another pipeline returns this SharedFuture (flattening must copy while others hold it)
   kThenAsync,       // ThenInline with a value callback that returns a Future (skipped when the shared result is a failure)
   kThenAsyncThrow,  // ThenInline with a Result callback returning a Future that throws instead
+  kThenReturnsShared,  // ThenInline on the SharedFuture (the node sits in its callback list, linked to other subscribers)
+                       // whose callback returns a second, still pending SharedFuture: the node becomes that one's first subscriber
   kObsN
 };
 const char* const kObsName[] = {"Ready", "SubscribeInline", "Subscribe(e)", "ThenInline", "Then(e)", "Get const&", "copy",
                                 "drop-copy", "Share", "Share(e)", "Connect->Promise", "Connect->SharedPromise",
                                 "co_await sf", "co_await Await(sf)", "Wait", "returned from a continuation (unwrapping)",
-                                "ThenInline(value)->Future", "ThenInline(Result)->Future, throws"};
+                                "ThenInline(value)->Future", "ThenInline(Result)->Future, throws",
+                                "ThenInline(Result)->second pending SharedFuture"};
 
 struct Ctx {
   int pk = 0;
@@ -80,6 +83,7 @@ struct Ctx {
   const char* err = nullptr;
   int raced = 0;  // observer operations executed while another observer's callback was registered and value not set
   int registered_now = 0;
+  SF sf2;  // a second shared state, fulfilled (value 43) by the fulfiller after the first one
   void Err(const char* e) {
     if (err == nullptr) {
       err = e;
@@ -185,6 +189,7 @@ void Observer(Ctx& cx, SF sf, const SF& common, const std::vector<Op>& ops, yacl
   std::vector<yaclib::Future<int, TErr>> outs_any;  // results not constrained (value, passed-through failure or thrown)
   std::vector<yaclib::Future<Pay, TErr>> pays;
   std::vector<yaclib::FutureOn<Pay, TErr>> pays_on;
+  std::vector<yaclib::Future<Pay, TErr>> pays2;  // flattened from the second SharedFuture: value 43
   std::vector<SF> seconds;
   vf::Guard guard;
   for (auto op : ops) {
@@ -315,6 +320,17 @@ void Observer(Ctx& cx, SF sf, const SF& common, const std::vector<Op>& ops, yacl
       case kUnwrap:
         pays.push_back(yaclib::MakeFuture<void, TErr>().ThenInline([copy = use]() { return copy; }));
         break;
+      case kThenReturnsShared:
+        ++cx.expected;
+        ++cx.registered_now;
+        pays2.push_back(use.ThenInline([&cx, guard, second = cx.sf2](const R& r) {
+          guard.Use();
+          ++cx.fired;
+          --cx.registered_now;
+          Check(cx, r);
+          return second;
+        }));
+        break;
       default:
         yaclib::Wait(use);
         if (!use.Ready()) {
@@ -347,6 +363,12 @@ void Observer(Ctx& cx, SF sf, const SF& common, const std::vector<Op>& ops, yacl
   for (auto& p : pays_on) {
     R r = std::move(p).Get();
     Check(cx, r);
+  }
+  for (auto& p : pays2) {
+    R r = std::move(p).Get();
+    if (!r || std::as_const(r).Value().Read() != 43) {
+      cx.Err("a continuation that returned the second SharedFuture did not complete with that one's value");
+    }
   }
   for (auto& s : seconds) {
     Check(cx, s.Get());
@@ -472,12 +494,14 @@ class Shared final : public vf::Family {
           server = yaclib_std::thread([&] { que.Serve(); });
         }
         auto [sf0, sp] = yaclib::MakeSharedContract<Pay, TErr>();
+        auto [sf2, sp2] = yaclib::MakeSharedContract<Pay, TErr>();
+        cx.sf2 = std::move(sf2);
         std::vector<yaclib_std::thread> ts;
         ts.reserve(static_cast<std::size_t>(k) + 1);
         for (auto& ops : prog) {
           ts.emplace_back([&cx, sf = sf0, &sf0 = sf0, &ops = ops, &e]() mutable { Observer(cx, std::move(sf), sf0, ops, e); });
         }
-        ts.emplace_back([&cx, sp = std::move(sp), pre, throws_first]() mutable {
+        ts.emplace_back([&cx, sp = std::move(sp), sp2 = std::move(sp2), pre, throws_first]() mutable {
           vf::Point();
           SF split;
           yaclib::Future<Pay, TErr> shared_f;
@@ -525,6 +549,8 @@ class Shared final : public vf::Family {
               auto dropped = std::move(sp);
             }
           }
+          vf::Point();
+          std::move(sp2).Set(Pay{43});  // the second shared state (returned by some continuations) is fulfilled later
           if (split.Valid()) {
             Check(cx, split.Get());
           }
@@ -538,6 +564,7 @@ class Shared final : public vf::Family {
         for (auto& t : ts) {
           t.join();
         }
+        cx.sf2 = SF{};  // the second shared state dies with its last holder before the balance is taken
         // last-but-one holder: only sf0 is left; a continuation that returns it (flattening) must copy, because sf0
         // is read again afterwards (moving out is allowed only for the provably last owner)
         if ((pre & 1) == 0) {
